@@ -125,6 +125,7 @@ class VM:
         self.nmerged = 0
         self.trace = False
         self._cur_machine = None
+        self.inst_by_struct = {}; self.cur_fn = None
         self.unknown_is_feasible = False; self.n_unknown_feasible = 0   # over-approximate path feasibility (sound for 'holds' verdicts)
 
     # ------------------------------------------------------------------ solver
@@ -294,6 +295,17 @@ class VM:
             return Enum(self._variant_idx(segs[-2], segs[-1]), segs[-1], (), segs[-2])
         if len(segs) == 1 and re.match(r'^[A-Z]\w*$', segs[0]): return Struct((), segs[0])
         return Opaque('const ' + t)
+
+    def struct_names(self):
+        if getattr(self, '_struct_names', None) is None:
+            import os
+            names = set()
+            for root, dirs, files in os.walk(self.mir.srcroot):
+                dirs[:] = [d for d in dirs if d not in ('target', '.git')]
+                for f in files:
+                    if f.endswith('.rs'): names |= set(re.findall(r'\bstruct (\w+)', open(os.path.join(root, f)).read()))
+            self._struct_names = names
+        return self._struct_names
 
     def _variant_idx(self, en, var):
         if en == 'Ordering': return {'Less': -1, 'Equal': 0, 'Greater': 1}[var]
@@ -483,6 +495,11 @@ class VM:
                 base = strip_generics(rv[2]); segs = [s.strip() for s in base.split('::') if s.strip()]
                 if len(segs) >= 2 and segs[-2] in self.enums and segs[-1] in self.enums[segs[-2]]:
                     return Enum(self._variant_idx(segs[-2], segs[-1]), segs[-1], ops, segs[-2])
+                if len(segs) == 1:
+                    # `use Enum::*`-style variant printed without its enum: unique variant name that is not itself a type name
+                    owners = [e for e, vs in self.enums.items() if segs[0] in vs]
+                    if len(owners) == 1 and segs[0] not in self.enums and segs[0] not in self.struct_names():
+                        return Enum(self._variant_idx(owners[0], segs[0]), segs[0], ops, owners[0])
                 return Struct(ops, segs[-1])
         if k == 'shallowbox':
             return self.operand(m, fid, rv[1], fn)
@@ -493,9 +510,16 @@ class VM:
         self.models.append((re.compile(pattern), handler))
 
     def resolve_callee(self, callee):
-        if callee in self._resolve_cache: return self._resolve_cache[callee]
-        res = self._resolve(callee)
-        self._resolve_cache[callee] = res
+        scope = None
+        if self.inst_by_struct and self.cur_fn is not None and self.cur_fn.impl_at:
+            scope = self.mir.impl_info(*self.cur_fn.impl_at)[1]
+        key = (callee, scope if scope in self.inst_by_struct else None)
+        if key in self._resolve_cache: return self._resolve_cache[key]
+        saved = self.inst
+        if key[1] is not None: self.inst = dict(self.inst); self.inst.update(self.inst_by_struct[scope])
+        try: res = self._resolve(callee)
+        finally: self.inst = saved
+        self._resolve_cache[key] = res
         return res
 
     def _resolve(self, callee):
@@ -521,8 +545,13 @@ class VM:
             if len(hits) == 1: return mir.get(hits[0])
             if not hits:
                 hits = lookup(xb, '<derive>', meth, file)
-                if len(hits) == 1: return mir.get(hits[0])
-                hits = []
+            if len(hits) > 1:
+                pre = '/'.join(x.strip() for x in strip_generics(X).split('::')[:-1] if x.strip())
+                h2 = [h for h in hits if pre and pre in h.replace('::', '/')]
+                if len(h2) == 1: hits = h2
+            if len(hits) == 1: return mir.get(hits[0])
+            if len(hits) > 1: return None
+            hits = []
             if not hits:
                 hits = lookup(None, tb, meth)      # trait default method
                 if len(hits) == 1: return mir.get(hits[0])
@@ -628,7 +657,19 @@ class VM:
         if isinstance(cv, FnItem):
             return self.call(m, cv.text, args)
         if not isinstance(cv, Closure): raise VMError('call of non-closure %r' % (cv,))
-        fn = self.mir.closure_of(cv.cty, cv.parent)
+        def hint(ty, args=args):
+            if not args: return True
+            v = args[0]
+            while isinstance(v, Ref):
+                try: v = self.read_at(m, v.cell, v.path)
+                except VMError: return True
+            t = ty.replace('&', '').replace('mut ', '').strip()
+            if isinstance(v, Str): return 'String' in t or 'str' in t
+            if isinstance(v, Seq): return t.startswith('Vec<') or t.startswith('[') or 'Vec<' in t
+            if isinstance(v, Fl): return t == 'f64'
+            if isinstance(v, bool) or z3.is_bool(v): return t == 'bool'
+            return True
+        fn = self.mir.closure_of(cv.cty, cv.parent, hint)
         a0ty = fn.args[0][1]
         if a0ty.startswith('&'):
             if ref is None: ref = Ref(m.alloc(cv))
@@ -715,6 +756,7 @@ class VM:
                     if st.b == 'panic' or st.b.endswith('::panic') or st.b.startswith('panic_fmt') or st.b.startswith('core::panicking') or st.b.startswith('std::rt::panic') \
                             or st.b in ('unwrap_failed', 'expect_failed', 'panic_display', 'panic_explicit', 'panic_cold_explicit', 'begin_panic'):
                         self._pop(m, fid); yield (m, 'panic', (st.b, args2[:1], st.span)); break
+                    self.cur_fn = fn
                     outs = self.call(m, st.b, args2, st.span)
                     succ = []
                     for (m2, kind, v) in outs:
